@@ -10,7 +10,7 @@ open TPV TPV.Proto TPV.Expr TPV.Expr.Expr TPV.DiffOps
   form : row | batch          (batch: the sum-over-the-batch forms; only grad lap div jac partial)
   num  : rat | flt            (rat: exact, `none` where not rational; flt: value bits and error-bound bits)
   out  : <#out> <expr>*       (mdiv: <#matrix rows> (<#cols> <expr>*)*)
-  expr : prefix notation  c <rat> | v <name> <i> | + a b | - a b | * a b | / a b | neg a | ^ a <n> | sin a | cos a | exp a | tanh a
+  expr : prefix notation  c <rat> | v <name> <i> | + a b | - a b | * a b | / a b | neg a | ^ a <n> | sin a | cos a | exp a | tanh a | relun a <n>
   Reply: `<per-row shape> ; row | row | …` with one token per entry, or `err:<kind>`.
 -/
 
@@ -31,6 +31,7 @@ partial def expr : P (Expr Var) := do
   | "cos" => do let a ← expr; pure (.cos a)
   | "exp" => do let a ← expr; pure (.exp a)
   | "tanh" => do let a ← expr; pure (.tanh a)
+  | "relun" => do let a ← expr; let n ← nat; pure (.relun a n)
   | _ => throw s!"expr:{t}"
 
 def coordsOf (decl : List (String × Nat)) : List Var :=
